@@ -219,3 +219,14 @@ Example C09_pipeline_examples :
   pipeline 7 (rept 40000 [97]) = Err ECount /\
   pipeline_safe 300 (rept 40000 [1046]) = Err ECount.
 Proof. exact pipeline_examples. Qed.
+
+(* Compose on a value that CARRIES A USER-DATA HEADER (a part made by ComposeMultipartShortMessage, a decoded segment): the
+   state is (data_coding, header, octets); the header is neither read nor written, label and octets are those of
+   compose_step on (data_coding, octets) - hence C09_compose_reused applies whatever header the value holds (Parse does
+   not look at the header either).  The direct test also reads the octets WriteTo produces back with the header
+   indicator the value implies.  Outside C09: header + text may exceed 140 octets (Compose fits the text alone). *)
+Theorem C09_compose_reused_header : forall (H : Type) (dc : N) (u : H) (o : bytes) rs,
+  let r := compose_step_u (dc, u, o) rs in
+  snd (fst (fst r)) = u /\
+  (fst (fst (fst r)), snd (fst r)) = fst (compose_step (dc, o) rs) /\ snd r = snd (compose_step (dc, o) rs).
+Proof. exact @compose_step_u_spec. Qed.
